@@ -23,7 +23,7 @@ func init() {
 		[]string{
 			"codeLookup($r0, $tokenReq.Code)",
 			"nil($r0.GetCodeChallenge()) || pkceOK($tokenReq.CodeVerifier, $r0.GetCodeChallenge())",
-			"jwtClient($r1, $tokenReq.ClientAssertion) || (" + clLookup + " && eq($r1.AuthMethod(), oidc.AuthMethodNone)) || (" + clLookup + " && neq($r1.AuthMethod(), oidc.AuthMethodNone) && secretOK($tokenReq.ClientID, $tokenReq.ClientSecret) && " + postClause + ")",
+			"(jwtClient($r1, $tokenReq.ClientAssertion) && true($exchanger.AuthMethodPrivateKeyJWTSupported()) && is($exchanger, JWTAuthorizationGrantExchanger)) || (" + clLookup + " && eq($r1.AuthMethod(), oidc.AuthMethodNone)) || (" + clLookup + " && neq($r1.AuthMethod(), oidc.AuthMethodNone) && secretOK($tokenReq.ClientID, $tokenReq.ClientSecret) && " + postClause + ")",
 			"jwtClient($r1, $tokenReq.ClientAssertion) || neq($r1.AuthMethod(), oidc.AuthMethodNone) || nonnil($r0.GetCodeChallenge())",
 		})
 	guarP("C04", "op.ValidateAccessTokenRequest", []string{"ctx", "tokenReq", "exchanger"},
